@@ -55,7 +55,7 @@ impl Writer {
 //@end
 
 //@extract src/writer.rs | impl<D: Distance> Writer<D> | contains_item
-//@subst
+//@subst count=opt
 <<<
 .map(|opt| opt.is_some())
 ===
@@ -65,7 +65,7 @@ impl Writer {
 //@end
 
 //@extract src/writer.rs | impl<D: Distance> Writer<D> | item_vector
-//@subst
+//@subst count=opt
 <<<
 .map(|leaf| {
 ===
@@ -90,7 +90,7 @@ impl Writer {
 //@end
 
 //@extract src/writer.rs | impl<D: Distance> Writer<D> | is_empty
-//@subst
+//@subst count=opt
 <<<
 .map(|mut iter| iter.next().is_none())
 ===
